@@ -119,15 +119,12 @@ func (n *Node) Submit(blocks []types.Block) error {
 
 // TipNode returns the tree node of the manager's tip (nil if unknown).
 // ValidatedParent reports whether a block may serve as the parent of a batch
-// handed to AddValidatedV2Blocks: its state is known and it has itself been
-// validated - applied, delivered pre-validated, or applied and pruned since
-// (a block merely stored by AddBlocks has only a header-derived state).
+// handed to AddValidatedV2Blocks: the documented domain only asks for a known
+// parent (its state is stored) - also one that AddBlocks merely stored, which
+// is how the syncer continues a long branch that crossed the require height.
 func (n *Node) ValidatedParent(id types.BlockID) bool {
-	if _, ok := n.CM.State(id); !ok {
-		return false
-	}
-	_, bs, ok := n.Store.Block(id)
-	return !ok || bs != nil
+	_, ok := n.CM.State(id)
+	return ok
 }
 
 func (n *Node) TipNode() *TNode { return n.Tree.ByID[n.CM.Tip().ID] }
